@@ -11,17 +11,18 @@ variable {lex : Bool}
 objects handed back unchanged -/
 def RRel (lex : Bool) (ρ1 : Env) (h : Heap) : Res → Except Err Val → Prop
   | .ok (v1, ρ', h'), .ok v2 => VRel lex v1 v2 ∧ ρ' = ρ1 ∧ h' = h
-  | .error e1, .error e2 => e1 = e2
+  | .error e1, .error e2 => e1.1 = e2
   | _, _ => False
 
 theorem RRel.cases {ρ1 : Env} {h : Heap} {r : Res} {s : Except Err Val} (hr : RRel lex ρ1 h r s) :
-    (∃ e, r = .error e ∧ s = .error e) ∨
+    (∃ e ρ' h', r = .error (e, ρ', h') ∧ s = .error e) ∨
     (∃ v1 v2, r = .ok (v1, ρ1, h) ∧ s = .ok v2 ∧ VRel lex v1 v2) := by
   match r, s, hr with
   | .ok (v1, ρ', h'), .ok v2, ⟨hv, he, hh⟩ => subst he; subst hh; exact .inr ⟨v1, v2, rfl, rfl, hv⟩
-  | .error e1, .error e2, he => cases he; exact .inl ⟨e1, rfl, rfl⟩
+  | .error (e1, ρ', h'), .error e2, he => cases he; exact .inl ⟨e1, ρ', h', rfl, rfl⟩
 
-theorem RRel.err {ρ1 : Env} {h : Heap} (e : Err) : RRel lex ρ1 h (.error e) (.error e) := rfl
+theorem RRel.err {ρ1 : Env} {h : Heap} (e : Err) {ρ' : Env} {h' : Heap} :
+    RRel lex ρ1 h (.error (e, ρ', h')) (.error e) := rfl
 theorem RRel.ok {ρ1 : Env} {h : Heap} {v1 v2 : Val} (hv : VRel lex v1 v2) : RRel lex ρ1 h (.ok (v1, ρ1, h)) (.ok v2) :=
   ⟨hv, rfl, rfl⟩
 
@@ -33,34 +34,34 @@ variable {ev : Expr → Env → Heap → Res} {sm : Expr → Env → Except Err 
 
 theorem operands_rel (hr : Related lex ev sm h) {a b : Expr} {exact : Bool} {S : List Name} {ρ1 ρ2 : Env}
     (hwa : WS lex exact S a = true) (hwb : WS lex exact S b = true) (hi : Inv lex none exact S ρ1 ρ2) :
-    (∃ e, operands ev a b ρ1 h = .error e ∧ semOperands sm a b ρ2 = .error e) ∨
+    (∃ e ρ' h', operands ev a b ρ1 h = .error (e, ρ', h') ∧ semOperands sm a b ρ2 = .error e) ∨
     (operands ev a b ρ1 h = .ok (none, ρ1, h) ∧ semOperands sm a b ρ2 = .ok none) ∨
     (∃ x1 y1 x2 y2, operands ev a b ρ1 h = .ok (some (x1, y1), ρ1, h) ∧
       semOperands sm a b ρ2 = .ok (some (x2, y2)) ∧ IRel lex x1 x2 ∧ IRel lex y1 y2) := by
   unfold operands semOperands
-  rcases (hr a exact S ρ1 ρ2 hwa hi).cases with ⟨e, h1, h2⟩ | ⟨v1, v2, h1, h2, hv⟩
-  · simp only [h1, h2]; exact .inl ⟨e, rfl, rfl⟩
+  rcases (hr a exact S ρ1 ρ2 hwa hi).cases with ⟨e, _, _, h1, h2⟩ | ⟨v1, v2, h1, h2, hv⟩
+  · simp only [h1, h2]; exact .inl ⟨e, _, _, rfl, rfl⟩
   · simp only [h1, h2]
     cases hv with
     | nil => exact .inr (.inl ⟨rfl, rfl⟩)
     | cons hx t =>
       cases t with
-      | cons _ _ => exact .inl ⟨.type, rfl, rfl⟩
+      | cons _ _ => exact .inl ⟨.type, _, _, rfl, rfl⟩
       | nil =>
-        rcases (hr b exact S ρ1 ρ2 hwb hi).cases with ⟨e, h3, h4⟩ | ⟨w1, w2, h3, h4, hw⟩
-        · simp only [h3, h4]; exact .inl ⟨e, rfl, rfl⟩
+        rcases (hr b exact S ρ1 ρ2 hwb hi).cases with ⟨e, _, _, h3, h4⟩ | ⟨w1, w2, h3, h4, hw⟩
+        · simp only [h3, h4]; exact .inl ⟨e, _, _, rfl, rfl⟩
         · simp only [h3, h4]
           cases hw with
           | nil => exact .inr (.inl ⟨rfl, rfl⟩)
           | cons hy t2 =>
             cases t2 with
-            | cons _ _ => exact .inl ⟨.type, rfl, rfl⟩
+            | cons _ _ => exact .inl ⟨.type, _, _, rfl, rfl⟩
             | nil => exact .inr (.inr ⟨_, _, _, _, rfl, rfl, hx, hy⟩)
 
 theorem forLoop_rel (hr : Related lex ev sm h) {x : Name} {body : Expr} {exact : Bool} {S : List Name} {ρ2 : Env}
     (hwb : WS lex exact (x :: S) body = true) :
     ∀ (items1 items2 : List Item), VRel lex items1 items2 → ∀ ρc, Inv lex (some x) exact S ρc ρ2 →
-      (∃ e, forLoop ev x body items1 ρc h = .error e ∧ semFor sm x body ρ2 items2 = .error e) ∨
+      (∃ e ρ' h', forLoop ev x body items1 ρc h = .error (e, ρ', h') ∧ semFor sm x body ρ2 items2 = .error e) ∨
       (∃ v1 v2 ρ', forLoop ev x body items1 ρc h = .ok (v1, ρ', h) ∧ semFor sm x body ρ2 items2 = .ok v2 ∧
         VRel lex v1 v2) := by
   intro items1 items2 hv
@@ -69,17 +70,17 @@ theorem forLoop_rel (hr : Related lex ev sm h) {x : Name} {body : Expr} {exact :
   | @cons a b as bs hit _ ih =>
     intro ρc hi
     unfold forLoop semFor
-    rcases (hr body exact (x :: S) _ _ hwb (hi.bind (.cons hit .nil))).cases with ⟨e, h1, h2⟩ | ⟨v1, v2, h1, h2, hv1⟩
-    · simp only [h1, h2]; exact .inl ⟨e, rfl, rfl⟩
+    rcases (hr body exact (x :: S) _ _ hwb (hi.bind (.cons hit .nil))).cases with ⟨e, _, _, h1, h2⟩ | ⟨v1, v2, h1, h2, hv1⟩
+    · simp only [h1, h2]; exact .inl ⟨e, _, _, rfl, rfl⟩
     · simp only [h1, h2]
-      rcases ih ((x, [a]) :: ρc) hi.step with ⟨e, h3, h4⟩ | ⟨w1, w2, ρ', h3, h4, hw⟩
-      · simp only [h3, h4]; exact .inl ⟨e, rfl, rfl⟩
+      rcases ih ((x, [a]) :: ρc) hi.step with ⟨e, _, _, h3, h4⟩ | ⟨w1, w2, ρ', h3, h4, hw⟩
+      · simp only [h3, h4]; exact .inl ⟨e, _, _, rfl, rfl⟩
       · simp only [h3, h4]; exact .inr ⟨_, _, ρ', rfl, rfl, hv1.append hw⟩
 
 theorem quantLoop_rel (hr : Related lex ev sm h) {q : Bool} {x : Name} {body : Expr} {exact : Bool} {S : List Name}
     {ρ2 : Env} (hwb : WS lex exact (x :: S) body = true) :
     ∀ (items1 items2 : List Item), VRel lex items1 items2 → ∀ ρc, Inv lex (some x) exact S ρc ρ2 →
-      (∃ e, quantLoop ev q x body items1 ρc h = .error e ∧ semQuant sm q x body ρ2 items2 = .error e) ∨
+      (∃ e ρ' h', quantLoop ev q x body items1 ρc h = .error (e, ρ', h') ∧ semQuant sm q x body ρ2 items2 = .error e) ∨
       (∃ b ρ', quantLoop ev q x body items1 ρc h = .ok (b, ρ', h) ∧ semQuant sm q x body ρ2 items2 = .ok b) := by
   intro items1 items2 hv
   induction hv with
@@ -87,11 +88,11 @@ theorem quantLoop_rel (hr : Related lex ev sm h) {q : Bool} {x : Name} {body : E
   | @cons a b as bs hit _ ih =>
     intro ρc hi
     unfold quantLoop semQuant
-    rcases (hr body exact (x :: S) _ _ hwb (hi.bind (.cons hit .nil))).cases with ⟨e, h1, h2⟩ | ⟨v1, v2, h1, h2, hv1⟩
-    · simp only [h1, h2]; exact .inl ⟨e, rfl, rfl⟩
+    rcases (hr body exact (x :: S) _ _ hwb (hi.bind (.cons hit .nil))).cases with ⟨e, _, _, h1, h2⟩ | ⟨v1, v2, h1, h2, hv1⟩
+    · simp only [h1, h2]; exact .inl ⟨e, _, _, rfl, rfl⟩
     · simp only [h1, h2, ebv_rel hv1]
       cases ebv v2 with
-      | error e => exact .inl ⟨e, rfl, rfl⟩
+      | error e => exact .inl ⟨e, _, _, rfl, rfl⟩
       | ok bv =>
         simp only
         by_cases hb : (bv == q) = true
@@ -114,7 +115,7 @@ theorem argToks_ws {exact : Bool} {S : List Name} : ∀ (a : Expr), WS lex exact
 theorem evalArgs_rel (hr : Related lex ev sm h) {exact : Bool} {S : List Name} {ρ1 ρ2 : Env}
     (hi : Inv lex none exact S ρ1 ρ2) :
     ∀ (as : List Expr), (∀ t, t ∈ as → WS lex exact S t = true) →
-      (∃ e, evalArgs ev as ρ1 h = .error e ∧ semArgs sm ρ2 as = .error e) ∨
+      (∃ e ρ' h', evalArgs ev as ρ1 h = .error (e, ρ', h') ∧ semArgs sm ρ2 as = .error e) ∨
       (∃ vs1 vs2, evalArgs ev as ρ1 h = .ok (vs1, ρ1, h) ∧ semArgs sm ρ2 as = .ok vs2 ∧ All2 (VRel lex) vs1 vs2) := by
   intro as
   induction as with
@@ -122,11 +123,11 @@ theorem evalArgs_rel (hr : Related lex ev sm h) {exact : Bool} {S : List Name} {
   | cons a rest ih =>
     intro hw
     unfold evalArgs semArgs
-    rcases (hr a exact S ρ1 ρ2 (hw a (by simp)) hi).cases with ⟨e, h1, h2⟩ | ⟨v1, v2, h1, h2, hv⟩
-    · simp only [h1, h2]; exact .inl ⟨e, rfl, rfl⟩
+    rcases (hr a exact S ρ1 ρ2 (hw a (by simp)) hi).cases with ⟨e, _, _, h1, h2⟩ | ⟨v1, v2, h1, h2, hv⟩
+    · simp only [h1, h2]; exact .inl ⟨e, _, _, rfl, rfl⟩
     · simp only [h1, h2]
-      rcases ih (fun t ht => hw t (by simp [ht])) with ⟨e, h3, h4⟩ | ⟨w1, w2, h3, h4, hws⟩
-      · simp only [h3, h4]; exact .inl ⟨e, rfl, rfl⟩
+      rcases ih (fun t ht => hw t (by simp [ht])) with ⟨e, _, _, h3, h4⟩ | ⟨w1, w2, h3, h4, hws⟩
+      · simp only [h3, h4]; exact .inl ⟨e, _, _, rfl, rfl⟩
       · simp only [h3, h4]; exact .inr ⟨_, _, rfl, rfl, .cons hv hws⟩
 
 theorem zip_lookup_rel : ∀ (ps : List Name) (vs1 vs2 : List Val), All2 (VRel lex) vs1 vs2 → ps.length = vs1.length →
@@ -230,7 +231,7 @@ theorem applyFn_rel (hr : Related lex ev sm h) {c : Cfg} (hq : c.q.callCopies = 
             | true => have := hex rfl; rw [← hlex, hc] at this; cases this
           subst hexf
           exact callEnv_inv (tail := ρ1) hdom hrel hout (fun hf => by cases hf) hvs hl
-      rcases (hr body ex (ps ++ S') _ _ hws hi).cases with ⟨e, h1, h2⟩ | ⟨v1, v2, h1, h2, hv⟩
+      rcases (hr body ex (ps ++ S') _ _ hws hi).cases with ⟨e, _, _, h1, h2⟩ | ⟨v1, v2, h1, h2, hv⟩
       · simp only [h1, h2]; exact RRel.err e
       · simp only [h1, h2, hq, if_true]; exact RRel.ok hv
   · have hl2 : ¬ ps.length = vs2.length := fun e => hl (e.trans hlen.symm)
